@@ -178,33 +178,18 @@ theorem tag_grammar (str : List Char) (name : String) :
 
 /-- `maxval:N` (any decimal uint64 literal, leading zeros allowed): width `byteCount N`, which is `count = byteCount maxval`. -/
 theorem tag_maxval (ds : List Char) (n : Nat) (name : String) (h : parseUint 64 ds = some n) :
-    parseTag ("maxval:".toList ++ ds) name = .ok (some { count := byteCount n, countSet := true, name := name }) := by
-  have hc : ',' ∉ "maxval:".toList ++ ds := no_comma_kw _ _ (by decide) (parseUint_no_comma _ _ _ h)
-  have hr := byteCount_range n (parseUint_lt _ _ _ h)
-  unfold parseTag
-  rw [splitOn_no_sep _ _ hc]
-  simp only [List.foldl, tagClause_maxval none ds n h, tagFinish]
-  simp [show ¬ byteCount n = 0 by omega, show ¬ 8 < byteCount n by omega]
+    parseTag ("maxval:".toList ++ ds) name = .ok (some { count := byteCount n, countSet := true, name := name }) :=
+  parseTag_maxval' ds n name h
 
 /-- `size:S` for `1 ≤ S ≤ 8`. -/
 theorem tag_size (ds : List Char) (n : Nat) (name : String) (h : parseUint 32 ds = some n) (h1 : 1 ≤ n) (h8 : n ≤ 8) :
-    parseTag ("size:".toList ++ ds) name = .ok (some { count := n, countSet := true, name := name }) := by
-  have hc : ',' ∉ "size:".toList ++ ds := no_comma_kw _ _ (by decide) (parseUint_no_comma _ _ _ h)
-  unfold parseTag
-  rw [splitOn_no_sep _ _ hc]
-  simp only [List.foldl, tagClause_size none ds n h, tagFinish]
-  simp [show ¬ n = 0 by omega, show ¬ 8 < n by omega]
+    parseTag ("size:".toList ++ ds) name = .ok (some { count := n, countSet := true, name := name }) :=
+  parseTag_size' ds n name h h1 h8
 
 /-- a width outside 1…8 is a structural error -/
 theorem tag_size_bad (ds : List Char) (n : Nat) (name : String) (h : parseUint 32 ds = some n) (hb : n < 1 ∨ 8 < n) :
-    parseTag ("size:".toList ++ ds) name = .error .structural := by
-  have hc : ',' ∉ "size:".toList ++ ds := no_comma_kw _ _ (by decide) (parseUint_no_comma _ _ _ h)
-  unfold parseTag
-  rw [splitOn_no_sep _ _ hc]
-  simp only [List.foldl, tagClause_size none ds n h, tagFinish]
-  rcases hb with hb | hb
-  · simp [show n = 0 by omega]
-  · simp [show ¬ n = 0 by omega, hb]
+    parseTag ("size:".toList ++ ds) name = .error .structural :=
+  parseTag_size_bad' ds n name h hb
 
 /-- `minlen:A,maxlen:B`: width `byteCount B`, range `A…B`; an inverted range is a structural error. -/
 theorem tag_minlen_maxlen (da db : List Char) (a b : Nat) (name : String)
@@ -212,28 +197,17 @@ theorem tag_minlen_maxlen (da db : List Char) (a b : Nat) (name : String)
     parseTag ("minlen:".toList ++ da ++ ',' :: ("maxlen:".toList ++ db)) name =
       if a ≤ b then .ok (some { count := byteCount b, countSet := true, minlen := a, maxlen := b, name := name })
       else .error .structural := by
-  have hca : ',' ∉ "minlen:".toList ++ da := no_comma_kw _ _ (by decide) (parseUint_no_comma _ _ _ ha)
-  have hcb : ',' ∉ "maxlen:".toList ++ db := no_comma_kw _ _ (by decide) (parseUint_no_comma _ _ _ hb)
-  have hr := byteCount_range b (parseUint_lt _ _ _ hb)
-  unfold parseTag
-  rw [splitOn_append _ _ _ hca, splitOn_no_sep _ _ hcb]
-  simp only [List.foldl, tagClause_minlen none da a ha, tagClause_maxlen _ db b hb, tagFinish]
   by_cases hab : a ≤ b
-  · simp [hab, show ¬ byteCount b = 0 by omega, show ¬ 8 < byteCount b by omega, show ¬ b < a by omega]
-  · simp [hab, show ¬ byteCount b = 0 by omega, show ¬ 8 < byteCount b by omega, show b < a by omega]
+  · simp only [hab, if_true]; exact parseTag_minmax' da db a b name ha hb hab
+  · simp only [hab, if_false]; exact parseTag_minmax_inverted' da db a b name ha hb (by omega)
 
 /-- `selector:S,val:V` (S non-empty, without a comma): a variant of selector field `S` for value `V`;
 none of the size checks apply. -/
 theorem tag_selector_val (s dv : List Char) (v : Nat) (name : String) (hs : ',' ∉ s) (hne : String.ofList s ≠ "")
     (hv : parseUint 64 dv = some v) :
     parseTag ("selector:".toList ++ s ++ ',' :: ("val:".toList ++ dv)) name =
-      .ok (some { selector := String.ofList s, val := v, name := name }) := by
-  have hca : ',' ∉ "selector:".toList ++ s := no_comma_kw _ _ (by decide) hs
-  have hcb : ',' ∉ "val:".toList ++ dv := no_comma_kw _ _ (by decide) (parseUint_no_comma _ _ _ hv)
-  unfold parseTag
-  rw [splitOn_append _ _ _ hca, splitOn_no_sep _ _ hcb]
-  simp only [List.foldl, tagClause_selector none s, tagClause_val _ dv v hv, tagFinish]
-  simp [hne]
+      .ok (some { selector := String.ofList s, val := v, name := name }) :=
+  parseTag_selector_val' s dv v name hs hne hv
 
 /-- A field without tag gets an info holding only its name; the top-level call (`name = ""`) gets none. -/
 theorem tag_empty (name : String) :
